@@ -48,6 +48,8 @@ structure LayerCfg where
   maxResp : Nat := 0
   /-- connlimit: `maxConnections` -/
   limit : Nat := 1
+  /-- ratelimit: the rate period in milliseconds (the harness uses average = burst = 1 for a limiter driven to its limit) -/
+  periodMs : Nat := 1000
   deriving DecidableEq, Repr, Inhabited
 
 abbrev Header := String × String
@@ -64,8 +66,12 @@ structure Script where
   chunks : List (List Nat)
   /-- `k ≥ 1`: call `Flush` (if the writer is an `http.Flusher`) after chunk `k`; `0`: never -/
   flushAfter : Nat
-  /-- try `Hijack` first; on success write the raw response on the connection -/
+  /-- try `Hijack` first; on success write the raw response on the connection; on failure answer normally -/
   hijack : Bool
+  /-- informational responses (`WriteHeader(103)` …) sent before the final status -/
+  info : List Nat
+  /-- call `Flush` after the headers / `WriteHeader`, before the first body byte -/
+  earlyFlush : Bool
   deriving Repr
 
 structure Resp where
@@ -83,6 +89,11 @@ structure Caps where
 
 /-- `net/http`'s own `*response` -/
 def Caps.real : Caps := ⟨true, true, true, true⟩
+/-- fronts that are not the HTTP/1 server's writer (a recorder, `http.TimeoutHandler`, HTTP/2 …): writers that lack
+`Hijack`, `Flush` or both -/
+def Caps.noHijack : Caps := ⟨true, true, false, false⟩
+def Caps.noFlush : Caps := ⟨false, false, true, true⟩
+def Caps.plain : Caps := ⟨false, false, false, false⟩
 def Caps.canFlush (c : Caps) : Bool := c.flushIface && c.flushWorks
 def Caps.canHijack (c : Caps) : Bool := c.hijackIface && c.hijackWorks
 /-- `utils.ProxyWriter`: has `Flush` and `Hijack`; each forwards iff the wrapped writer has the method -/
@@ -102,8 +113,12 @@ structure Result where
   seen : Option Caps
   /-- the handler took over the connection; `resp` is what it wrote there itself -/
   hijacked : Bool
-  /-- the bytes written before the handler's `Flush` reached the client while the handler was running -/
+  /-- what the handler had written before each of its `Flush` calls reached the client while the handler was running -/
   flushed : Bool
+  /-- informational (1xx) `WriteHeader` calls that reach the writer of this level -/
+  infos : List Nat
+  /-- a final (non-1xx) `WriteHeader` call reaches the writer of this level (otherwise the status is the implicit 200) -/
+  explicit : Bool
   deriving DecidableEq, Repr
 
 def ascii (s : String) : List Nat := s.toList.map Char.toNat
@@ -118,11 +133,32 @@ def intervenes (l : LayerCfg) (req : Req) : Bool :=
   | .connlimit | .ratelimit | .cbreaker | .roundrobin | .rebalancer => l.tripped
   | .buffer => decide (0 < l.maxReq) && decide (l.maxReq < req.bodyLen)
 
-/-- The response an intervening layer writes (harness configuration: rate 1/s, burst 1). -/
+/-- Go's `time.Duration.String()` for a whole number of milliseconds (stdlib formatting, assumed) -/
+def goDuration (ms : Nat) : String :=
+  if ms = 0 then "0s"
+  else if ms < 1000 then toString ms ++ "ms"
+  else
+    let h := ms / 3600000
+    let m := ms % 3600000 / 60000
+    let sec := ms % 60000 / 1000
+    let frac := ms % 1000
+    let fs := if frac = 0 then "" else
+      let d := (toString (1000 + frac)).drop 1 |>.toString
+      "." ++ (if frac % 100 = 0 then (d.take 1).toString else if frac % 10 = 0 then (d.take 2).toString else d)
+    (if h > 0 then toString h ++ "h" else "") ++ (if h > 0 || m > 0 then toString m ++ "m" else "") ++ toString sec ++ fs ++ "s"
+
+/-- `fmt.Sprintf("%.0f", d.Seconds())`: round half to even -/
+def retryAfter (ms : Nat) : String :=
+  let q := ms / 1000
+  let r := ms % 1000
+  toString (if r > 500 || (r == 500 && q % 2 == 1) then q + 1 else q)
+
+/-- The response an intervening layer writes (harness configuration of a limiter at its limit: average = burst = 1). -/
 def interventionResp (l : LayerCfg) : Resp :=
   match l.kind with
   | .connlimit => ⟨429, [sniffed], ascii ("max connections reached: " ++ toString l.limit)⟩
-  | .ratelimit => ⟨429, [sniffed, ("Retry-After", "1"), ("X-Retry-In", "1s")], ascii "max rate reached: retry-in 1s"⟩
+  | .ratelimit => ⟨429, [sniffed, ("Retry-After", retryAfter l.periodMs), ("X-Retry-In", goDuration l.periodMs)],
+      ascii ("max rate reached: retry-in " ++ goDuration l.periodMs)⟩
   | .cbreaker =>
     match l.fallback with
     | .dflt => ⟨503, [sniffed], ascii "Service Unavailable"⟩
@@ -152,25 +188,39 @@ def overflows (l : LayerCfg) (bodyLen : Nat) : Bool :=
 
 def scriptResp (s : Script) : Resp := ⟨s.status.getD 200, s.headers, s.chunks.flatten⟩
 
-def flushRequested (s : Script) : Bool := decide (1 ≤ s.flushAfter) && decide (s.flushAfter ≤ s.chunks.length)
+def flushRequested (s : Script) : Bool :=
+  s.earlyFlush || (decide (1 ≤ s.flushAfter) && decide (s.flushAfter ≤ s.chunks.length))
 
 /-- The innermost handler, given the writer it receives. -/
 def runHandler (s : Script) (c : Caps) : Result :=
   if s.hijack && c.canHijack then
-    ⟨scriptResp s, 1, some c, true, false⟩
+    ⟨scriptResp s, 1, some c, true, false, [], true⟩
   else
-    ⟨scriptResp s, 1, some c, false, flushRequested s && c.canFlush⟩
+    ⟨scriptResp s, 1, some c, false, flushRequested s && c.canFlush, s.info, s.status.isSome⟩
+
+/-- What a layer's writer does with the `WriteHeader` calls it receives.  Only `bufferWriter` is not a relay: it keeps the
+code of the *last* call (`WriteHeader` just stores it; `Write` sets 200 only while the code is still 0) and issues one
+`WriteHeader(code)` at the end.  So 1xx responses are swallowed when a final status follows; when none follows the stored code
+stays 1xx, `expectBody` is false and the body is dropped while `net/http` finishes with the implicit 200. -/
+def relayHeaderCalls (l : LayerCfg) (r : Result) : Result :=
+  match l.kind with
+  | .buffer =>
+    if r.explicit then { r with infos := [] }
+    else match r.infos.getLast? with
+      | some c => { r with infos := [c], resp := { r.resp with body := [] } }
+      | none => { r with explicit := true }
+  | _ => r
 
 /-- What a passing layer does with the result of `next` once it returns. -/
 def post (l : LayerCfg) (r : Result) : Result :=
   if r.hijacked then r
-  else if overflows l r.resp.body.length then { r with resp := internalError }
-  else { r with resp := decorate1 l r.resp }
+  else if overflows l r.resp.body.length then { r with resp := internalError, infos := [], explicit := true }
+  else relayHeaderCalls l { r with resp := decorate1 l r.resp }
 
 def serve : List LayerCfg → (Req → Script) → Req → Caps → Result
   | [], h, req, c => runHandler (h req) c
   | l :: ls, h, req, c =>
-    if intervenes l req then ⟨interventionResp l, 0, none, false, false⟩
+    if intervenes l req then ⟨interventionResp l, 0, none, false, false, [], true⟩
     else post l (serve ls h req (wrapCaps l.kind c))
 
 /-- The stack served by `net/http` (outermost layer first). -/
@@ -217,7 +267,7 @@ inductive Outcome where
 def serveSt : List SLayer → (Req → Script) → Req → Bool → Caps → Outcome × List SLayer
   | [], h, req, abort, c => (if abort then .aborted 1 else .served (runHandler (h req) c), [])
   | (l, n) :: ls, h, req, abort, c =>
-    if intervenes (eff l n) req then (.served ⟨interventionResp (eff l n), 0, none, false, false⟩, (l, n) :: ls)
+    if intervenes (eff l n) req then (.served ⟨interventionResp (eff l n), 0, none, false, false, [], true⟩, (l, n) :: ls)
     else
       let r := serveSt ls h req abort (wrapCaps l.kind c)
       (match r.1 with
